@@ -166,7 +166,9 @@ impl<'a, R: BufRead> LogCat2DltMsgIterator<'a, R> {
             standard_header: DltStandardHeader {
                 htyp: self.htyp,
                 mcnt: (index & 0xff) as u8,
-                len: self.len_wo_payload + (payload.len() as u16),
+                len: self
+                    .len_wo_payload
+                    .saturating_add(payload.len().min(u16::MAX as usize) as u16), // lines can be longer than a dlt msg
             },
             extended_header: Some(DltExtendedHeader {
                 verb_mstp_mtin: (3u8 << 1) | (2u8 << 4), // Control Resp., non verb
@@ -357,7 +359,9 @@ where
                             standard_header: DltStandardHeader {
                                 htyp: self.htyp,
                                 mcnt: (index & 0xff) as u8,
-                                len: self.len_wo_payload + (payload.len() as u16),
+                                len: self
+                                    .len_wo_payload
+                                    .saturating_add(payload.len().min(u16::MAX as usize) as u16), // lines can be longer than a dlt msg
                             },
                             extended_header: Some(DltExtendedHeader {
                                 verb_mstp_mtin: (1u8 << 0) /* | (0u8 << 1)*/ | (mtin << 4), // verb, log,
@@ -461,7 +465,10 @@ where
                                 standard_header: DltStandardHeader {
                                     htyp: self.htyp,
                                     mcnt: (index & 0xff) as u8,
-                                    len: self.len_wo_payload + (payload.len() as u16),
+                                    len:
+                                        self.len_wo_payload.saturating_add(
+                                            payload.len().min(u16::MAX as usize) as u16,
+                                        ), // lines can be longer than a dlt msg
                                 },
                                 extended_header: Some(DltExtendedHeader {
                                     verb_mstp_mtin: (1u8 << 0) /* | (0u8 << 1)*/ | (mtin << 4), // verb, log,
